@@ -42,7 +42,7 @@ bool Block::deleteSource(const Source &source) {
     if (!util::checkEntityInput(source, false)) {
         return false;
     }
-    return backend()->deleteSource(source.name());
+    return backend()->deleteSource(source.id());
 }
 
 DataArray Block::createDataArray(const std::string &name, const std::string &type, nix::DataType data_type,
